@@ -23,7 +23,14 @@ func VerifyAPREQ(APReq *messages.APReq, s *Settings) (bool, *credentials.Credent
 
 	// Check for replay
 	rc := GetReplayCache(s.MaxClockSkew())
-	if rc.IsReplay(APReq.Ticket.SName, APReq.Authenticator) {
+	// The service the authenticator was presented to is the principal whose key opened the ticket. With a keytab
+	// principal override that is the override: the sname in the ticket is then unauthenticated clear text which
+	// whoever replays the authenticator can change at will.
+	rcSName := APReq.Ticket.SName
+	if s.KeytabPrincipal() != nil {
+		rcSName = *s.KeytabPrincipal()
+	}
+	if rc.IsReplay(rcSName, APReq.Authenticator) {
 		return false, creds,
 			messages.NewKRBError(APReq.Ticket.SName, APReq.Ticket.Realm, errorcode.KRB_AP_ERR_REPEAT, "replay detected")
 	}
